@@ -755,15 +755,30 @@ theorem watch_sound_end_to_end_finding :
         { id := "a", name := "EXEC" } ]).2 =
       [[okTok], [Tok.int 0], [Handler.e], [okTok], [queuedTok], [Tok.arr 1, Tok.int 1]] := by decide +kernel
 
-/-- (findings before the `fix:`es, now the required behaviour) `ZADD k LT 0 m` on a missing key creates
-    nothing, and `ZUNIONSTORE d 1 x` with a wrong-typed operand fails before the destination exists -/
+/-- (findings before the `fix:`es, now the required behaviour) a ZADD that may not add - `ZADD k XX 0 m` - on a
+    missing key creates nothing, and `ZUNIONSTORE d 1 x` with a wrong-typed operand fails before the destination
+    exists.
+    RESTATED with the repair of A-48 (work package Z): the first command was `ZADD k LT 0 m`, stated when the
+    command layer took LT / GT for "update only". Redis' LT / GT do not prevent adding, and since the repair
+    `ZADD k LT 0 m` on a missing key ADDS m (`zadd_lt_gt_add_new_members` below): the old sentence is false by
+    intention. What it protected - a ZADD that adds nothing leaves no empty key behind - is kept with XX, the
+    one option under which a ZADD on a missing key writes nothing. -/
 theorem repaired_zadd_lt_and_zunionstore_create_nothing :
     (run fullTable { store := { pebble := true } }
-      [ { id := "a", name := "ZADD", args := [kk, [76, 84], [48], [109]] }, { id := "a", name := "EXISTS", args := [kk] },
+      [ { id := "a", name := "ZADD", args := [kk, [88, 88], [48], [109]] }, { id := "a", name := "EXISTS", args := [kk] },
         { id := "a", name := "SET", args := [[120], [49]] },
         { id := "a", name := "ZUNIONSTORE", args := [[100], [49], [120]] },
         { id := "a", name := "EXISTS", args := [[100]] } ]).2 =
       [[Tok.int 0], [Tok.int 0], [okTok], [Tok.err 1], [Tok.int 0]] := by decide +kernel
+
+/-- (A-48 repaired) LT / GT do not prevent adding: `ZADD k LT 0 m` on a missing key adds m and creates k;
+    `ZADD k GT CH 0 m 1 n` then leaves m alone (0 is not greater than 0), adds n, and CH counts it -/
+theorem zadd_lt_gt_add_new_members :
+    (run fullTable { store := { pebble := true } }
+      [ { id := "a", name := "ZADD", args := [kk, [76, 84], [48], [109]] }, { id := "a", name := "EXISTS", args := [kk] },
+        { id := "a", name := "ZADD", args := [kk, [71, 84], [67, 72], [48], [109], [49], [110]] },
+        { id := "a", name := "ZCARD", args := [kk] } ]).2 =
+      [[Tok.int 1], [Tok.int 1], [Tok.int 1], [Tok.int 2]] := by decide +kernel
 
 /-- a store with a counter, for the increment theorem -/
 example : Proofs.C09Incr.CounterIs kk ({ pebble := true } : MState) 0 := Or.inl ⟨rfl, rfl⟩
